@@ -11,11 +11,7 @@ import numpy as np
 def quiet_warp():
   import warp as wp
 
-  wp.config.quiet = True
-  try:
-    wp.config.log_level = wp.LOG_WARNING
-  except Exception:
-    pass
+  wp.config.log_level = wp.LOG_WARNING
   return wp
 
 
